@@ -58,21 +58,27 @@ MODULE_SRC = {
     "alpha/mb.py": '"""Module mb."""\nfrom alpha.ma import A\nclass B(A):\n    "B."\nclass B2(A):\n    "B2."\nCONST = {"k": 1, "j": 2}\n',
     "alpha/.hidden": "not python\n",
     # no docstring: its summary counts the documented members per kind - a sub-package AND a module
-    "beta/__init__.py": 'from alpha.ma import A\n',
-    "beta/sc/__init__.py": '"""Sub package."""\n',
+    "beta/__init__.py": 'from alpha.ma import A\ndef bfun():\n    "b function"\n',
+    "beta/sc/__init__.py": '"""Sub package."""\ndef scfun():\n    "sc function"\n',
     "beta/sc/md.py": '"""Module md."""\nfrom alpha.ma import A\nclass D(A):\n    "D."\n    x = 1\n    "x doc"\n',
     "beta/me.py": '"""Module me."""\nimport alpha.ma\nclass E(alpha.ma.A):\n    "E extends L{alpha.ma.A}."\ndef f(a, b=(1, 2)):\n    "f."\n',
     "beta/README.txt": "data\n",
     # epytext sections whose titles have no Latin letter or digit (ids and table of contents)
     "gamma.py": '"""Gamma module.\n\n\u0420\u0430\u0437\u0434\u0435\u043b\n======\n\u03b1\u03b2\u03b3 text.\n\n'
                 '\u6982\u8981\n==\nMore text.\n\n\u2605\u2605\u2605\n===\nLast.\n"""\nimport alpha.ma\nclass G(alpha.ma.A):\n    "G."\nv = 3\n"v doc"\n',
+    # a second module named gamma in another directory (think build/lib/gamma.py next to src/gamma.py)
+    "dup/gamma.py": '"""Gamma module, stale copy."""\nclass Gold:\n    "old"\nv = 2\n"old v doc"\n',
 }
+ROOTS = ["alpha", "beta", "gamma.py", "dup/gamma.py"]
+# inputs enumerated whatever the bound on the number of roots: a package with independent modules still waiting to be
+# processed, then the same module name twice
+EXTRA_INPUTS = [["beta", "dup/gamma.py", "gamma.py"]]
 # "small": a package with two modules whose names differ only in case, a package with a nested package, a module
 UNIVERSES = {
     "small": ["alpha/__init__.py", "alpha/Ma.py", "alpha/ma.py", "beta/__init__.py", "beta/me.py", "beta/sc/__init__.py",
-              "gamma.py"],
+              "gamma.py", "dup/gamma.py"],
     "large": ["alpha/__init__.py", "alpha/Ma.py", "alpha/ma.py", "alpha/mb.py", "alpha/.hidden",
-              "beta/__init__.py", "beta/me.py", "beta/README.txt", "beta/sc/__init__.py", "beta/sc/md.py", "gamma.py"],
+              "beta/__init__.py", "beta/me.py", "beta/README.txt", "beta/sc/__init__.py", "beta/sc/md.py", "gamma.py", "dup/gamma.py"],
 }
 # collections of names that reach a page (Determinism.tla `sites`): (name, module, how, [(defining module, element)])
 # elements are listed in the order the code collects them; ranks are those of the sort key (fullName().lower())
@@ -83,9 +89,9 @@ SITES = [
     ("subclasses:alpha.ma.A", "alpha.ma", BOTH("sorted"),
      [("alpha.ma", "alpha.A2"), ("alpha.ma", "alpha.A3"), ("alpha.mb", "alpha.mb.B"), ("alpha.mb", "alpha.mb.B2"),
       ("beta.me", "beta.me.E"), ("beta.sc.md", "beta.sc.md.D"), ("gamma", "gamma.G")]),
-    # summary of the undocumented package beta: "1/1 module, 1/1 package documented" - kinds sorted by their value
+    # summary of the undocumented package beta: "1/1 function, 1/1 module, 1/1 package documented" - kinds sorted by their value
     # (epydoc2stan.format_undocumented); shown in moduleIndex.html
-    ("undocumented-kinds:beta", "beta", BOTH("sorted"), [("beta.sc", "2:package"), ("beta.me", "1:module")]),
+    ("undocumented-kinds:beta", "beta", BOTH("sorted"), [("beta.sc", "2:package"), ("beta.me", "1:module"), ("beta", "0:function")]),
     # sections of an epytext docstring whose titles have no Latin letter or digit, in document order (table of contents)
     ("sections:gamma", "gamma", BOTH("list"),
      [("gamma", "1:\u0420\u0430\u0437\u0434\u0435\u043b"), ("gamma", "2:\u6982\u8981"), ("gamma", "3:\u2605\u2605\u2605")]),
@@ -99,11 +105,13 @@ SITES = [
 # option variants of an input: (member order, SOURCE_DATE_EPOCH, enumerated for inputs with at most `upto` roots)
 EPOCH = 1000000000
 # (member order, SOURCE_DATE_EPOCH, upto, pages all|summary, --sidebar-expand-depth=2, explore listing permutations,
-#  --template-dir with footer.html and FOOTER.html)
-DEFAULT_VARIANT = ("alphabetical", EPOCH, 9, "all", False, True, False)
-VARIANTS = {"quick": [DEFAULT_VARIANT, ("source", 0, 1, "all", True, True, True), ("alphabetical", EPOCH, 1, "summary", False, False, False)],
-            "thorough": [DEFAULT_VARIANT, ("source", 0, 1, "all", True, True, True), ("source", EPOCH, 1, "all", False, True, False),
-                         ("alphabetical", 0, 1, "all", True, True, False), ("alphabetical", EPOCH, 2, "summary", False, False, True)]}
+#  two --template-dir: footer.html / FOOTER.html in the first, header.html in both; sources through add-package in a
+#  configuration file)
+DEFAULT_VARIANT = ("alphabetical", EPOCH, 9, "all", False, True, False, False)
+VARIANTS = {"quick": [DEFAULT_VARIANT, ("source", 0, 1, "all", True, True, True, True),
+                      ("alphabetical", EPOCH, 1, "summary", False, False, False, False)],
+            "thorough": [DEFAULT_VARIANT, ("source", 0, 1, "all", True, True, True, True), ("source", EPOCH, 1, "all", False, True, False, False),
+                         ("alphabetical", 0, 1, "all", True, True, False, True), ("alphabetical", EPOCH, 2, "summary", False, False, True, False)]}
 FIXED_PAGES = {"index.html": [0, 0], "moduleIndex.html": [0, 1], "classIndex.html": [0, 2], "nameIndex.html": [0, 3],
                "undoccedSummary.html": [0, 4], "all-documents.html": [0, 5]}
 
@@ -129,16 +137,24 @@ class Tree:
         self.dir_of_path: Dict[Tuple[int, ...], Path] = {}
         self.name_of: Dict[Tuple[int, ...], str] = {}   # id path -> dotted module name
         self.id_of_entry: Dict[Tuple[Tuple[int, ...], str], int] = {}
-        for i, nm in enumerate(sorted(root_names), 1):
+        self.root_args: Dict[int, str] = {}
+        # a root in a sub directory ("dup/gamma.py") is a second module of the same name: numbered after the others
+        ordered = sorted(root_names, key=lambda n: ("/" in n, n))
+        modnames = [Path(n).name[:-3] if n.endswith(".py") else Path(n).name for n in ordered]
+        namerank = {m: k for k, m in enumerate(sorted(set(modnames)), 1)}
+        for i, (nm, modname) in enumerate(zip(ordered, modnames), 1):
             p = src / nm
             ispkg = p.is_dir()
-            self.roots.append({"id": i, "pkg": ispkg})
-            modname = nm if ispkg else nm[:-3]
+            first = modnames.index(modname) + 1
+            self.roots.append({"id": i, "pkg": ispkg, "name": namerank[modname], "dupof": first if first != i else 0})
             self.root_name[i] = modname
+            self.root_args[i] = nm
             self.name_of[(i,)] = modname
             if ispkg:
                 self._scan(p, (i,))
-        self.path_of_name = {v: k for k, v in self.name_of.items()}
+        self.path_of_name = {}
+        for k, v in self.name_of.items():
+            self.path_of_name.setdefault(v, k)           # the first (not the duplicate) root of a name
 
     def _scan(self, d: Path, path: Tuple[int, ...]) -> None:
         ents = []
@@ -166,9 +182,11 @@ class Tree:
             rank = {e: i for i, e in enumerate(sorted((e for _, e in present), key=str.lower), 1)}
             out.append({"name": name, "mod": list(self.path_of_name[mod]), "how": how,
                         "elems": [{"m": list(self.path_of_name[m]), "r": rank[e]} for m, e in present]})
-        return {"roots": self.roots, "dirs": self.dirs, "sites": out,
-                "variants": [{"order": o, "epochset": True, "epoch": e, "upto": u, "pages": pg, "expand": ex, "permute": pm, "tpl": tp}
-                             for o, e, u, pg, ex, pm, tp in variants]}
+        rid = {a: i for i, a in self.root_args.items()}
+        extra = [[rid[a] for a in seq] for seq in EXTRA_INPUTS if all(a in rid for a in seq)] if sites else []
+        return {"roots": self.roots, "dirs": self.dirs, "sites": out, "extra": extra,
+                "variants": [{"order": o, "epochset": True, "epoch": e, "upto": u, "pages": pg, "expand": ex, "permute": pm, "tpl": tp, "viacfg": vc}
+                             for o, e, u, pg, ex, pm, tp, vc in variants]}
 
     def site_element(self, site: str, rank: int) -> str:
         elems = next(el for name, _, _, el in SITES if name == site)
@@ -181,8 +199,19 @@ class Tree:
         return {i: p.name for i, p in enumerate(sorted(d.iterdir()))}
 
     def root_arg(self, rid: int) -> str:
-        nm = self.root_name[rid]
-        return nm if self.roots[rid - 1]["pkg"] else nm + ".py"
+        return self.root_args[rid]
+
+    def eff(self, roots: Sequence[int]) -> List[int]:
+        """System.rootobjects for these command line roots: of two roots with one module name the last wins."""
+        return [r for i, r in enumerate(roots) if not any(self.root_name[s] == self.root_name[r] for s in roots[i + 1:])]
+
+    def by_name(self, ids: Sequence[Sequence[int]]) -> List[List[Any]]:
+        """File ids / module paths of the spec with the numbers of modules replaced by their names."""
+        out = []
+        for f in ids:
+            f = list(f)
+            out.append(f if f[0] == 0 else [f[0], self.name_of[tuple(f[1:])]])
+        return sorted(out, key=str)
 
 
 def materialise(dst: Path, files: Sequence[str]) -> None:
@@ -331,8 +360,8 @@ def first_diff(a: Path, b: Path) -> Dict[str, str]:
     return {"ref": f"{len(la)} lines", "run": f"{len(lb)} lines"}
 
 
-SAMEPROC = ("import sys\nfrom pydoctor.driver import main\nwarm, args = sys.argv[1], sys.argv[2:]\n"
-            "first = list(args)\nfirst[first.index('--html-output') + 1] = warm\nmain(first)\nsys.exit(main(args))\n")
+SAMEPROC = ("import sys, json\nfrom pydoctor.driver import main\nfirst, args = json.loads(sys.argv[1])\n"
+            "main(first)\nsys.exit(main(args))\n")
 _TABLE_ID = re.compile(rb"\bid\d+\b")
 _SIDEBAR_ID = re.compile(rb"expandableItemId\d+")
 class Runner:
@@ -352,10 +381,15 @@ class Runner:
         self.tpl.mkdir(exist_ok=True)
         (self.tpl / "footer.html").write_text(base.replace("<footer ", '<footer data-tpl="lower" ', 1))
         (self.tpl / "FOOTER.html").write_text(base.replace("<footer ", '<footer data-tpl="upper" ', 1))
+        # ... and a second directory: both provide header.html
+        self.tpl2 = scratch / "tpl2"
+        self.tpl2.mkdir(exist_ok=True)
+        (self.tpl / "header.html").write_text('<div data-hdr="first">header of the first template directory</div>\n')
+        (self.tpl2 / "header.html").write_text('<div data-hdr="second">header of the second template directory</div>\n')
 
     def run(self, src: Path, root_args: List[str], named: bool, seed: int, orders: Dict[str, List[str]], salt: int,
             out: Path, extra_args: Sequence[str] = (), var: Optional[Dict[str, Any]] = None,
-            sameproc: bool = False) -> Dict[str, Any]:
+            sameproc: bool = False, other_root: Optional[str] = None) -> Dict[str, Any]:
         self.n += 1
         tag = out.name
         cfg = self.scratch / f"listing_{tag}.json"
@@ -368,7 +402,7 @@ class Runner:
         if var.get("expand"):
             extra_args = list(extra_args) + ["--sidebar-expand-depth=2"]
         if var.get("tpl"):
-            extra_args = list(extra_args) + ["--template-dir", str(self.tpl)]
+            extra_args = list(extra_args) + ["--template-dir", str(self.tpl), "--template-dir", str(self.tpl2)]
         env.pop("SOURCE_DATE_EPOCH", None)
         if var["epochset"]:
             env["SOURCE_DATE_EPOCH"] = str(var["epoch"])
@@ -377,24 +411,34 @@ class Runner:
         env.update({"PYTHONHASHSEED": str(seed), "C18_LISTING": str(cfg),
                     "PYTHONPATH": str(self.site) + os.pathsep + env.get("PYTHONPATH", ""),
                     "PYTHONDONTWRITEBYTECODE": "1"})
-        cmd = [PY, "-m", "pydoctor", "--html-output", str(out)]
         warm = out.with_name(out.name + "_warm")
+        opts = (["--project-name", PROJECT_NAME] if named else []) + list(extra_args)
+
+        def sources(roots: List[str], name: str) -> List[str]:
+            if not var.get("viacfg"):
+                return roots
+            # the sources are named in a configuration file (add-package), nothing on the command line
+            ini = self.scratch / f"cfg_{tag}_{name}.ini"
+            ini.write_text("[pydoctor]\n" + "".join(f"add-package = {src / r}\n" for r in roots))
+            return ["--config", str(ini)]
+        args = ["--html-output", str(out)] + opts + sources(root_args, "main")
+        cmd = [PY, "-m", "pydoctor"] + args
         if sameproc:
             # the run under observation is the SECOND pydoctor run of its process (what pydoctor.sphinx_ext does with two
-            # configured projects): the first one builds the same input into a directory that is thrown away
-            cmd = [PY, "-c", SAMEPROC, str(warm), "--html-output", str(out)]
-        if named:
-            cmd += ["--project-name", PROJECT_NAME]
-        cmd += list(extra_args) + root_args
+            # configured projects): the first one builds ANOTHER project into a directory that is thrown away
+            first = ["--html-output", str(warm)] + opts + sources([other_root or root_args[0]], "warm")
+            cmd = [PY, "-c", SAMEPROC, json.dumps([first, args])]
         p = subprocess.run(cmd, cwd=str(src), env=env, capture_output=True, text=True, timeout=300)
         shutil.rmtree(warm, ignore_errors=True)
+        for f in self.scratch.glob(f"cfg_{tag}_*.ini"):
+            f.unlink()
         listings = []
         if log.exists():
             listings = [json.loads(l) for l in log.read_text().splitlines() if l.strip()]
             log.unlink()
         cfg.unlink()
-        m = re.search(r"Guessing '(.*)' for project name", p.stdout + p.stderr)
-        return {"rc": p.returncode, "guess": m.group(1) if m else None, "listings": listings,
+        guesses = re.findall(r"Guessing '(.*)' for project name", p.stdout + p.stderr)      # the last run of the process
+        return {"rc": p.returncode, "guess": guesses[-1] if guesses else None, "listings": listings,
                 "tail": (p.stdout + p.stderr)[-600:]}
 
 
@@ -471,6 +515,13 @@ def observed_sites(out: Path) -> Dict[str, Any]:
     return obs
 
 
+def obs_header(out: Path) -> str:
+    f = out / "moduleIndex.html"
+    m = re.search(r'data-hdr="(\w+)"', f.read_text()) if f.exists() else None
+    # two --template-dir provide header.html: the directory given last wins
+    return "default" if not m else ("last-given" if m.group(1) == "second" else "the other one: " + m.group(1))
+
+
 def alldocs_order(tree: Tree, out: Path) -> List[List[int]]:
     f = out / "all-documents.html"
     if not f.exists():
@@ -545,7 +596,7 @@ def compare_with_ref(ref_out: Path, ref_digest: Dict[str, str], out: Path, name_
 def realise_enumeration(ctx: Ctx, runner: Runner, tree: Tree, uname: str, recs: List[Dict[str, Any]],
                         pool: ThreadPoolExecutor, nseeds: int) -> Dict[str, Any]:
     """One real run per TLC terminal state; returns per-pid results."""
-    tuples = sorted({tuple(tree.root_name[r] for r in rec["roots"]) for rec in recs})
+    tuples = sorted({tuple(tree.root_name[r] for r in tree.eff(rec["roots"])) for rec in recs})
     seedmap = seeds_for_orders([list(t) for t in tuples], nseeds, pool)
     by_pid: Dict[int, List[Dict[str, Any]]] = {}
     for rec in recs:
@@ -555,7 +606,7 @@ def realise_enumeration(ctx: Ctx, runner: Runner, tree: Tree, uname: str, recs: 
     counter = {"i": 0}
 
     def prepare(rec: Dict[str, Any]) -> Dict[str, Any]:
-        names = tuple(tree.root_name[r] for r in rec["roots"])
+        names = tuple(tree.root_name[r] for r in tree.eff(rec["roots"]))
         want = tuple(tree.root_name[r] for r in rec["setOrder"])
         cands = seedmap[names].get(want)
         if not cands:
@@ -585,13 +636,15 @@ def realise_enumeration(ctx: Ctx, runner: Runner, tree: Tree, uname: str, recs: 
     list(pool.map(run_ref, sorted(by_pid)))
 
     def conformance(rec: Dict[str, Any], out: Path, o: Dict[str, Any]) -> Optional[Dict[str, Any]]:
-        files = sorted(project_files(tree, out))
-        alld = alldocs_order(tree, out)
+        files = tree.by_name(project_files(tree, out))
+        alld = [tree.name_of[tuple(x)] for x in alldocs_order(tree, out)]
         bad = {}
-        if files != sorted(rec["files"]):
-            bad["files"] = {"model": sorted(rec["files"]), "real": files}
-        if alld != rec["alldocs"]:
-            bad["alldocs"] = {"model": rec["alldocs"], "real": alld}
+        if files != tree.by_name(rec["files"]):
+            bad["files"] = {"model": tree.by_name(rec["files"]), "real": files}
+        if alld != [tree.name_of[tuple(x)] for x in rec["alldocs"]]:
+            bad["alldocs"] = {"model": [tree.name_of[tuple(x)] for x in rec["alldocs"]], "real": alld}
+        if obs_header(out) != rec["header"]:
+            bad["header_template"] = {"model": rec["header"], "real": obs_header(out)}
         obs = observed_sites(out)
         for st in rec.get("sites", []):
             model_names = [tree.site_element(st["name"], r) for r in st["order"]]
@@ -620,6 +673,10 @@ def realise_enumeration(ctx: Ctx, runner: Runner, tree: Tree, uname: str, recs: 
                 raise MachineryError(f"listing of {d} was not realised: wanted {want}, process saw {seen[:2]}")
         return bad or None
 
+    def other_root(rec: Dict[str, Any]) -> Optional[str]:
+        """The project built first in a process that then builds `rec`: another root of the universe."""
+        return next((tree.root_arg(r["id"]) for r in tree.roots if r["id"] not in rec["roots"] and not r["dupof"]), None)
+
     def run_one(item: Tuple[int, Dict[str, Any]]) -> Dict[str, Any]:
         idx, rec = item
         pid = rec["pid"]
@@ -632,7 +689,7 @@ def realise_enumeration(ctx: Ctx, runner: Runner, tree: Tree, uname: str, recs: 
         if rec["outdir"] == "reused":
             shutil.copytree(ref["out"], out, symlinks=True)
         o = runner.run(tree.src, env["root_args"], rec["named"], env["seed"], env["orders"], env["salt"], out, var=rec["var"],
-                       sameproc=rec["outdir"] == "sameproc")
+                       sameproc=rec["outdir"] == "sameproc", other_root=other_root(rec))
         try:
             name_ref = ref["obs"]["guess"] or PROJECT_NAME
             name_out = o["guess"] or PROJECT_NAME
@@ -657,6 +714,10 @@ def env_summary(tree: Tree, rec: Dict[str, Any], env: Dict[str, Any]) -> Dict[st
             "listing": {os.path.relpath(k, tree.src): v for k, v in env["orders"].items()}, "outdir": rec["outdir"]}
 
 
+def other_root_of(tree: Tree, rec: Dict[str, Any]) -> Optional[str]:
+    return next((tree.root_arg(r["id"]) for r in tree.roots if r["id"] not in rec["roots"] and not r["dupof"]), None)
+
+
 def judge_enumeration(ctx: Ctx, tree: Tree, uname: str, res: Dict[str, Any], dependent_model: set) -> Dict[str, Any]:
     dependent_real = set()
     drift = 0
@@ -664,9 +725,10 @@ def judge_enumeration(ctx: Ctx, tree: Tree, uname: str, res: Dict[str, Any], dep
         rec = r["rec"]
         ctx.traces += 1
         ref = res["refs"][rec["pid"]]
-        project = {"roots": [tree.root_name[x] for x in rec["roots"]], "named": rec["named"], "universe": uname,
+        project = {"roots": [tree.root_arg(x) for x in rec["roots"]], "named": rec["named"], "universe": uname,
                    "member_order": rec["var"]["order"], "source_date_epoch": rec["var"]["epoch"],
-                   "pages": rec["var"]["pages"], "sidebar_expand": rec["var"]["expand"], "template_dir": rec["var"]["tpl"]}
+                   "pages": rec["var"]["pages"], "sidebar_expand": rec["var"]["expand"], "template_dir": rec["var"]["tpl"],
+                   "via_config_file": rec["var"]["viacfg"], "built_before_in_the_process": other_root_of(tree, rec)}
         if r["diff"] is not None:
             dependent_real.add(rec["pid"])
             w = {"invariant": "OutputIndependentOfEnvironment", "origin": "enum", "project": project,
@@ -756,7 +818,7 @@ def run(ctx: Ctx) -> int:
         for uname, maxroots, reuse in plans:
             src = ctx.scratch / f"src_{uname}"
             materialise(src, UNIVERSES[uname])
-            tree = Tree(src, sorted({f.split("/")[0] for f in UNIVERSES[uname]}))
+            tree = Tree(src, ROOTS)
             variants = VARIANTS[ctx.tier] if uname == "small" else [DEFAULT_VARIANT]
             permute = 1 if ctx.quick else 9
             sameproc = 1 if uname == "small" else 0
@@ -789,11 +851,11 @@ def run(ctx: Ctx) -> int:
 
         # ---- model-level negative control: with the listing NOT sorted the register mechanism must report dependence
         src = ctx.scratch / "src_small"
-        tree = Tree(src, sorted({f.split("/")[0] for f in UNIVERSES["small"]}))
+        tree = Tree(src, ROOTS)
         _, dep_sorted, _ = tlc_enum(ctx, tree, 1, "sorted", count=False)
         _, dep_raw, _ = tlc_enum(ctx, tree, 1, "raw", count=False)
         _, dep_sets, _ = tlc_enum(ctx, tree, 1, "sorted", count=False, reuse=0, sites_as_set=True)
-        _, dep_epoch, _ = tlc_enum(ctx, tree, 1, "sorted", count=False, reuse=0, variants=[("alphabetical", 0, 1, "all", False, True, False)],
+        _, dep_epoch, _ = tlc_enum(ctx, tree, 1, "sorted", count=False, reuse=0, variants=[("alphabetical", 0, 1, "all", False, True, False, False)],
                                    epochrule="truthy")
         ctx.extra["negative_control_model"] = {"dependent_when_epoch_zero_counts_as_unset": sorted(dep_epoch),
                                                "dependent_with_sorted_listing": sorted(dep_sorted),
@@ -820,7 +882,7 @@ def run(ctx: Ctx) -> int:
                 listing.append([{"id": ids[n], "kind": d["ents"][ids[n]]["kind"]} for n in byd[dp] if n in ids])
             rid = {v: k for k, v in tree.root_name.items()}
             fruns.append({"reg": r["pi"] + 1, "u": tree.universe(sites=False), "roots": [rid[n] for n in r["pr"]["roots"]],
-                          "named": r["pr"]["named"], "var": {"order": "alphabetical", "epochset": True, "epoch": EPOCH, "upto": 9, "pages": "all", "expand": False, "permute": True, "tpl": False},
+                          "named": r["pr"]["named"], "var": {"order": "alphabetical", "epochset": True, "epoch": EPOCH, "upto": 9, "pages": "all", "expand": False, "permute": True, "tpl": False, "viacfg": False},
                           "setOrder": [rid[n] for n in r["setorder"]],
                           "listing": listing, "outdir": r["outdir"]})
         f = ctx.scratch / "runs.json"
@@ -899,9 +961,8 @@ def replay(ctx: Ctx, path: str) -> int:
         else:
             src = ctx.scratch / "src"
             materialise(src, UNIVERSES[pr["universe"]])
-            tree = Tree(src, sorted({f.split("/")[0] for f in UNIVERSES[pr["universe"]]}))
-            rid = {v: k for k, v in tree.root_name.items()}
-            args = [tree.root_arg(rid[n]) for n in pr["roots"]]
+            tree = Tree(src, ROOTS)
+            args = list(pr["roots"])
             envs = [(e, {str(src / k): v for k, v in e["listing"].items()}) for e in (w["ref_env"], w["env"])]
         outs = []
         for i, (e, orders) in enumerate(envs):
@@ -911,7 +972,8 @@ def replay(ctx: Ctx, path: str) -> int:
             o = runner.run(src, args, pr["named"], e["hash_seed"], orders, e.get("listing_salt", i), out,
                            var={"order": pr.get("member_order", "alphabetical"), "epochset": True,
                                 "epoch": pr.get("source_date_epoch", EPOCH), "pages": pr.get("pages", "all"),
-                                "expand": pr.get("sidebar_expand", False), "tpl": pr.get("template_dir", False)}, sameproc=e.get("outdir") == "sameproc")
+                                "expand": pr.get("sidebar_expand", False), "tpl": pr.get("template_dir", False), "viacfg": pr.get("via_config_file", False)},
+                           sameproc=e.get("outdir") == "sameproc", other_root=pr.get("built_before_in_the_process"))
             outs.append((out, o))
         diff = compare_with_ref(outs[0][0], tree_digest(outs[0][0]), outs[1][0], outs[0][1]["guess"] or PROJECT_NAME,
                                 outs[1][1]["guess"] or PROJECT_NAME)
